@@ -47,6 +47,76 @@ func replFreeAddr() string {
 	return a
 }
 
+// replForwarder is a tiny TCP forwarder between the replica and the primary: the link of a HEALTHY replica can be cut
+// (every live connection is reset, new ones are refused) and brought back, without restarting anything.
+type replForwarder struct {
+	ln     net.Listener
+	target string
+	mu     sync.Mutex
+	conns  []net.Conn
+	down   bool
+}
+
+func newReplForwarder(target string) (*replForwarder, error) {
+	ln, err := net.Listen("tcp", "127.0.0.1:0")
+	if err != nil {
+		return nil, err
+	}
+	f := &replForwarder{ln: ln, target: target}
+	go func() {
+		for {
+			c, err := ln.Accept()
+			if err != nil {
+				return
+			}
+			f.mu.Lock()
+			down := f.down
+			f.mu.Unlock()
+			if down {
+				replReset(c)
+				continue
+			}
+			t, err := net.Dial("tcp", f.target)
+			if err != nil {
+				replReset(c)
+				continue
+			}
+			f.mu.Lock()
+			f.conns = append(f.conns, c, t)
+			f.mu.Unlock()
+			go func() { io.Copy(t, c); replReset(t); replReset(c) }()
+			go func() { io.Copy(c, t); replReset(c); replReset(t) }()
+		}
+	}()
+	return f, nil
+}
+
+func replReset(c net.Conn) {
+	if tc, ok := c.(*net.TCPConn); ok {
+		tc.SetLinger(0)
+	}
+	c.Close()
+}
+
+func (f *replForwarder) addr() string { return f.ln.Addr().String() }
+
+func (f *replForwarder) cut() {
+	f.mu.Lock()
+	f.down = true
+	cs := f.conns
+	f.conns = nil
+	f.mu.Unlock()
+	for _, c := range cs {
+		replReset(c)
+	}
+}
+
+func (f *replForwarder) up() {
+	f.mu.Lock()
+	f.down = false
+	f.mu.Unlock()
+}
+
 func replQuietLogs(path string) {
 	var w io.Writer = io.Discard
 	if path != "" {
@@ -230,6 +300,7 @@ type replDriver struct {
 	prim     *replNode
 	mu       sync.Mutex // protects repl (the sampler runs concurrently with restarts)
 	repl     *replNode
+	fwd      *replForwarder // only in scenarios with a link cut: the replica reaches the primary through it
 	joined   bool
 	last     string
 	nsamples int
@@ -360,7 +431,11 @@ func (d *replDriver) write(op []kvEntry, api string) error {
 // join starts the replica on its data directory; every start after the first one is a restart and is logged with the
 // number of entries the replica engine had been handed in its earlier lives
 func (d *replDriver) join() error {
-	n, err := startReplReplica(filepath.Join(d.dir, "replica"), d.raddr, d.paddr, &d.cc)
+	target := d.paddr
+	if d.fwd != nil {
+		target = d.fwd.addr()
+	}
+	n, err := startReplReplica(filepath.Join(d.dir, "replica"), d.raddr, target, &d.cc)
 	if err != nil {
 		return err
 	}
@@ -429,6 +504,13 @@ func replSysCmd(args []string) int {
 	if err != nil {
 		return fail("primary: " + err.Error())
 	}
+	for _, st := range sc.Steps {
+		if st.A == "cut" && d.fwd == nil {
+			if d.fwd, err = newReplForwarder(d.paddr); err != nil {
+				return fail("forwarder: " + err.Error())
+			}
+		}
+	}
 	d.wg.Add(1)
 	go d.sampler()
 	for _, s := range sc.Steps {
@@ -479,9 +561,23 @@ func replSysCmd(args []string) int {
 				err := d.repl.eng.Put(replKeyBytes(d.conc, "k1"), []byte("client-write-on-replica"))
 				d.log.ev(map[string]interface{}{"e": "cwr", "refused": err != nil})
 			}
+		case "cut":
+			// the link of the (healthy, running) replica is cut: live connections reset, new ones refused
+			if d.fwd != nil {
+				d.fwd.cut()
+				d.log.ev(map[string]interface{}{"e": "cut"})
+			}
+		case "linkup":
+			if d.fwd != nil {
+				d.fwd.up()
+				d.log.ev(map[string]interface{}{"e": "linkup"})
+			}
 		case "sleep":
 			time.Sleep(time.Duration(s.Ms) * time.Millisecond)
 		}
+	}
+	if d.fwd != nil {
+		d.fwd.up()
 	}
 	d.log.ev(map[string]interface{}{"e": "quiesce"})
 	if d.repl == nil {
